@@ -25,3 +25,12 @@ package babbage
 //@   ensures exact: typed && err == nil && len(atx.WitnessSet.WsRedeemers.Redeemers) != 0 ==> bal * 100 >= N(atx.Body.TxFee) * N(app.CollateralPercentage)
 //@   cover accepts: typed && err == nil && len(atx.WitnessSet.WsRedeemers.Redeemers) != 0 && len(ins) > 0
 //@   loop 0 invariant rangeindex < len(ins) && val(totalCollateral) == common.collSum(ins, ls, rangeindex + 1)
+
+// C34: with body validation enabled the era decoder succeeds only if ValidateBlockBodyHash accepted
+// these very bytes against the decoded header's own body hash, over the era's 5 top-level items.
+//@ func NewBabbageBlockFromCbor(data, config) (blk, err)
+//@   props C34
+//@   attr trackcalls on
+//@   ensures checked: err == nil && !old(len(config) > 0 && config[0].SkipBodyHashValidation) ==>
+//@       called(ValidateBlockBodyHash) && callres(ValidateBlockBodyHash) == nil && callarg(ValidateBlockBodyHash, 0) == data &&
+//@       callarg(ValidateBlockBodyHash, 3) == 5 && called(BlockBodyHash) && callarg(ValidateBlockBodyHash, 1) == callres(BlockBodyHash)
